@@ -16,7 +16,10 @@ ASSUME = [
 
 
 def encoders():
-    return [("c07_kin", hist.KIN_HEADER, "check_kcase", "kcase", lambda tr, n: hist.encode_kcase(tr, n))]
+    # check_kcase_and_hocase = check_kcase && check_hocase: the kinematics replay and, per leg, the LOCAL hand-over
+    # contract from which Props/C07chain.v derives the chain condition (one parse of the case term for both)
+    return [("c07_kin", hist.KIN_HEADER + "\nRequire Import JF.Model.Handover JF.Model.HandoverCases.",
+             "check_kcase_and_hocase", "kcase", lambda tr, n: hist.encode_kcase(tr, n))]
 
 
 def run(ctx, replay_jobs=None):
